@@ -132,7 +132,7 @@ def check(chk: Check) -> None:
                 if t[0] == 'call' and t[2] in (('ref', 'builtin', 'str'), ('ref', 'builtin', 'repr'), ('ref', 'builtin', 'format')) \
                         and t[3] and t[3][0] in params:
                     textual.append(show(t))
-                if t[0] == 'fstr' and any(x in params for x in t[1:]):
+                if t[0] == 'fstr' and any(x in params or (isinstance(x, tuple) and x[:1] == ('fmt',) and x[1] in params) for x in t[1:]):
                     textual.append(show(t))
                 for x in t:
                     scan(x)
